@@ -742,18 +742,13 @@ def Pred.WF (τ : Rat) : Pred → Prop
   | .traj _ sts => ∀ st ∈ sts, st.WF τ
   | .occ shs => ∀ sh ∈ shs, sh.WF
 
-/-- what `translate_rotate` is documented to move: initial state, prediction, occupancies, environment shape. -/
+/-- every world-frame content of an obstacle: initial state, prediction, history, occupancies, environment shape. -/
 def Obstacle.obs : Obstacle → Obs
   | .static _ st => st.obs
-  | .dynamic _ st p _ => st.obs ++ p.obs
+  | .dynamic _ st p hist => st.obs ++ p.obs ++ obsL State.obs hist
   | .phantom none => Obs.nil
   | .phantom (some shs) => obsL Shape.obs shs
   | .env sh => sh.obs
-
-/-- the world-frame content that `DynamicObstacle.translate_rotate` leaves alone: the history states. -/
-def Obstacle.histObs : Obstacle → Obs
-  | .dynamic _ _ _ hist => obsL State.obs hist
-  | _ => Obs.nil
 
 /-- body-frame shapes (`obstacle_shape`, `TrajectoryPrediction.shape`): must stay as they are. -/
 def Obstacle.bodies : Obstacle → List Shape
@@ -764,7 +759,7 @@ def Obstacle.bodies : Obstacle → List Shape
 
 def Obstacle.WF (τ : Rat) : Obstacle → Prop
   | .static _ st => st.WF τ
-  | .dynamic _ st p _ => st.WF τ ∧ p.WF τ
+  | .dynamic _ st p hist => st.WF τ ∧ p.WF τ ∧ ∀ st ∈ hist, st.WF τ
   | .phantom none => True
   | .phantom (some shs) => ∀ sh ∈ shs, sh.WF
   | .env sh => sh.WF
@@ -781,35 +776,42 @@ theorem Pred.move_spec {m : Mo} (h : Adm m) : ∀ p : Pred, p.WF m.τ →
     exact ⟨.occ l', by simp [Pred.move, e], hm, hw', trivial⟩
 
 theorem Obstacle.move_spec {m : Mo} (h : Adm m) : ∀ o : Obstacle, o.WF m.τ →
-    ∃ o', o.move m = .ok o' ∧ Moved m o.obs o'.obs ∧ o'.WF m.τ ∧ o'.bodies = o.bodies ∧ o'.histObs = o.histObs
+    ∃ o', o.move m = .ok o' ∧ Moved m o.obs o'.obs ∧ o'.WF m.τ ∧ o'.bodies = o.bodies
   | .static b st, hw => by
     obtain ⟨st', e, hm, hw'⟩ := State.move_spec h st hw
-    exact ⟨.static b st', by simp [Obstacle.move, guard_ok h, e], hm, hw', rfl, rfl⟩
+    exact ⟨.static b st', by simp [Obstacle.move, guard_ok h, e], hm, hw', rfl⟩
   | .dynamic b st p hist, hw => by
     obtain ⟨st', e1, hm1, hw1⟩ := State.move_spec h st hw.1
-    obtain ⟨p', e2, hm2, hw2, hb⟩ := Pred.move_spec h p hw.2
-    refine ⟨.dynamic b st' p' hist, by simp [Obstacle.move, guard_ok h, e1, e2], Moved.app hm1 hm2, ⟨hw1, hw2⟩, ?_, rfl⟩
+    obtain ⟨p', e2, hm2, hw2, hb⟩ := Pred.move_spec h p hw.2.1
+    obtain ⟨hist', e3, hm3, hw3⟩ := moveStates_spec h hist hw.2.2
+    refine ⟨.dynamic b st' p' hist', by simp [Obstacle.move, guard_ok h, e1, e2, e3],
+            Moved.app (Moved.app hm1 hm2) hm3, ⟨hw1, hw2, hw3⟩, ?_⟩
     cases p <;> cases p' <;> simp_all [Obstacle.bodies]
-  | .phantom none, _ => ⟨.phantom none, by simp [Obstacle.move, guard_ok h], Moved.nil m, trivial, rfl, rfl⟩
+  | .phantom none, _ => ⟨.phantom none, by simp [Obstacle.move, guard_ok h], Moved.nil m, trivial, rfl⟩
   | .phantom (some shs), hw => by
     obtain ⟨l', e, hm, hw'⟩ := moveOccs_spec h shs hw
-    exact ⟨.phantom (some l'), by simp [Obstacle.move, guard_ok h, e], hm, hw', rfl, rfl⟩
+    exact ⟨.phantom (some l'), by simp [Obstacle.move, guard_ok h, e], hm, hw', rfl⟩
   | .env sh, hw => by
     obtain ⟨sh', e, hm, hw'⟩ := Shape.move_spec h sh hw
-    exact ⟨.env sh', by simp [Obstacle.move, guard_ok h, e], hm, hw', rfl, rfl⟩
+    exact ⟨.env sh', by simp [Obstacle.move, guard_ok h, e], hm, hw', rfl⟩
 
 /-! ### scenario, planning problems -/
 
-/-- the content of a scenario that the property's list of components names (and `translate_rotate` moves). -/
+/-- area borders: every vertex, and every border as a polyline. -/
+def areasObs (as : List (List (List Pt))) : Obs := { pts := as.flatten.flatten, lines := as.flatten }
+
+theorem areasObs_moved (m : Mo) (as : List (List (List Pt))) :
+    Moved m (areasObs as) (areasObs (as.map (List.map (List.map m.mv)))) := by
+  refine ⟨?_, rfl, trivial, rfl, rfl, rfl, ?_, rfl⟩
+  · simp only [areasObs, List.map_flatten, List.map_map]
+  · simp only [areasObs, List.map_flatten, List.map_map]
+
+/-- EVERYTHING spatial in the scenario record that lives in the world frame: lanelets (boundaries, center lines, stop lines,
+    polygons), sign and light positions, all obstacles (states, predictions, histories, occupancies, environment shapes),
+    area borders. -/
 def Scenario.obs (sc : Scenario) : Obs :=
   obsL Lanelet.obs sc.lanelets ++ Obs.ofPts sc.signs ++ obsL Light.obs sc.lights ++ obsL Obstacle.obs sc.obstacles
-
-/-- world-frame content of the scenario record that `translate_rotate` leaves in place: area borders, obstacle histories. -/
-def Scenario.leftObs (sc : Scenario) : Obs :=
-  Obs.ofPts (sc.areas.flatten.flatten) ++ obsL Obstacle.histObs sc.obstacles
-
-/-- EVERYTHING spatial in the scenario record that lives in the world frame. -/
-def Scenario.obsFull (sc : Scenario) : Obs := sc.obs ++ sc.leftObs
+    ++ areasObs sc.areas
 
 def Scenario.WF (τ : Rat) (sc : Scenario) : Prop :=
   (∀ la ∈ sc.lanelets, la.WF) ∧ (∀ o ∈ sc.obstacles, o.WF τ)
@@ -818,46 +820,17 @@ def Problem.obs (pp : Problem) : Obs := pp.init.obs ++ obsL State.obs pp.goal
 
 def Problem.WF (τ : Rat) (pp : Problem) : Prop := pp.init.WF τ ∧ ∀ st ∈ pp.goal, st.WF τ
 
-theorem obsL_congr {α : Type} (f : α → Obs) : ∀ (l l' : List α), List.Forall₂ (fun x y => f y = f x) l l' →
-    obsL f l' = obsL f l
-  | [], [], _ => rfl
-  | _ :: _, _ :: _, .cons h t => by simp only [obsL]; rw [h, obsL_congr f _ _ t]
-
-theorem mapR_forall₂ {α : Type} (f : α → Res α) (R : α → α → Prop) (P : α → Prop)
-    (h : ∀ x y, P x → f x = .ok y → R x y) :
-    ∀ l l' : List α, (∀ x ∈ l, P x) → mapR f l = .ok l' → List.Forall₂ R l l'
-  | [], l', _, e => by simp [mapR] at e; subst e; exact .nil
-  | x :: xs, l', hP, e => by
-    simp only [mapR] at e
-    cases hx : f x with
-    | error err => simp [hx] at e
-    | ok y =>
-      cases hxs : mapR f xs with
-      | error err => simp [hx, hxs] at e
-      | ok ys =>
-        simp [hx, hxs] at e
-        subst e
-        exact .cons (h x y (hP x (by simp)) hx) (mapR_forall₂ f R P h xs ys (fun z hz => hP z (by simp [hz])) hxs)
-
 theorem Scenario.move_spec {m : Mo} (h : Adm m) (sc : Scenario) (hw : sc.WF m.τ) :
-    ∃ sc', sc.move m = .ok sc' ∧ Moved m sc.obs sc'.obs ∧ sc'.WF m.τ ∧ sc'.leftObs = sc.leftObs
-      ∧ sc'.areas = sc.areas := by
+    ∃ sc', sc.move m = .ok sc' ∧ Moved m sc.obs sc'.obs ∧ sc'.WF m.τ := by
   obtain ⟨ls, e1, hm1, hw1, _⟩ := mapR_moved m (Lanelet.move m) Lanelet.obs Lanelet.WF
     (fun la hla => Lanelet.move_spec h la hla) sc.lanelets hw.1
   obtain ⟨lt, e3, hm3, _, _⟩ := mapR_moved m (Light.move m) Light.obs (fun _ => True)
     (fun l _ => let ⟨l', e, hm, _⟩ := Light.move_spec h l; ⟨l', e, hm, trivial⟩) sc.lights (fun _ _ => trivial)
   obtain ⟨obs, e4, hm4, hw4, _⟩ := mapR_moved m (Obstacle.move m) Obstacle.obs (Obstacle.WF m.τ)
-    (fun o ho => let ⟨o', e, hm, hw', _, _⟩ := Obstacle.move_spec h o ho; ⟨o', e, hm, hw'⟩) sc.obstacles hw.2
-  have hh : obsL Obstacle.histObs obs = obsL Obstacle.histObs sc.obstacles := by
-    apply obsL_congr
-    exact mapR_forall₂ (Obstacle.move m) _ (Obstacle.WF m.τ)
-      (fun o o' ho e => by
-        obtain ⟨o'', e', _, _, _, hh⟩ := Obstacle.move_spec h o ho
-        rw [e] at e'; cases e'; exact hh) sc.obstacles obs hw.2 e4
-  refine ⟨⟨ls, sc.signs.map m.mv, lt, obs, sc.areas⟩, ?_, ?_, ⟨hw1, hw4⟩, ?_, rfl⟩
+    (fun o ho => let ⟨o', e, hm, hw', _⟩ := Obstacle.move_spec h o ho; ⟨o', e, hm, hw'⟩) sc.obstacles hw.2
+  refine ⟨⟨ls, sc.signs.map m.mv, lt, obs, sc.areas.map (List.map (List.map m.mv))⟩, ?_, ?_, ⟨hw1, hw4⟩⟩
   · simp [Scenario.move, guard_ok h, e1, mapR_movePosition h, e3, e4]
-  · exact Moved.app (Moved.app (Moved.app hm1 (Moved.ofPts m _)) hm3) hm4
-  · simp only [Scenario.leftObs, hh]
+  · exact Moved.app (Moved.app (Moved.app (Moved.app hm1 (Moved.ofPts m _)) hm3) hm4) (areasObs_moved m _)
 
 theorem Problem.move_spec {m : Mo} (h : Adm m) (pp : Problem) (hw : pp.WF m.τ) :
     ∃ pp', pp.move m = .ok pp' ∧ Moved m pp.obs pp'.obs ∧ pp'.WF m.τ := by
@@ -1071,17 +1044,5 @@ theorem Moved.restored {m : Mo} {o o1 o2 o3 : Obs} (h1 : m.c ^ 2 + m.s ^ 2 = 1) 
       IvsMoved.trans (m1 := m) (m2 := m.invRot) (m12 := ⟨1, 0, 0, ⟨0, 0⟩, m.τ⟩) rfl rfl (by simp [Mo.invRot]) ha.ivs hb.ivs
     exact IvsMoved.trans (m1 := ⟨1, 0, 0, ⟨0, 0⟩, m.τ⟩) (m2 := m.invTr) (m12 := ⟨1, 0, 0, ⟨0, 0⟩, m.τ⟩) rfl rfl
       (by simp [Mo.invTr]) h12 hc.ivs
-
-/-- if some world-frame content that the code leaves in place is not a fixed point of the motion, the scenario as a whole is
-    not `Moved` (used for the witnesses). -/
-theorem Scenario.not_moved_full {m : Mo} (h : Adm m) (sc : Scenario) (hw : sc.WF m.τ)
-    (hne : sc.leftObs.pts.map m.mv ≠ sc.leftObs.pts) :
-    ∀ sc', sc.move m = .ok sc' → ¬ Moved m sc.obsFull sc'.obsFull := by
-  intro sc' e hm
-  obtain ⟨sc'', e', hm', _, hl, _⟩ := Scenario.move_spec h sc hw
-  rw [e] at e'; cases e'
-  have := hm.pts
-  simp only [Scenario.obsFull, Obs.app_pts, List.map_append, hl, hm'.pts] at this
-  exact hne (List.append_cancel_left this).symm
 
 end CR.Rigid
